@@ -1,5 +1,6 @@
 import Autog.Properties.C16
 import Autog.Properties.C03
+import Autog.Model.Phase5
 /-! # C17 — unit independence (scale equivariance)
 
     For every positive factor c (in particular every power of two) and every graph state with well-formed layer lists:
@@ -7,7 +8,8 @@ import Autog.Properties.C03
     scaling the layer heights and LayerSpacing by c scales every band's Y by c (`C17_layerYs_scale`); list level:
     `placeFrom_scale`, `layerW_scale`, `valign_scale`, `assignY_scale` for every factor. The theorems are about the model
     functions the keys `T:phase4-valign`, `T:assignY` compare with the real code.
-    PARTIAL: PackRight, SinkColoring, Brandes–Köpf and the routers are decided by exact comparison at 2^k (k ∈ −3..6) on
+    PackRight likewise (`C17_packright_scale`).
+    PARTIAL: SinkColoring, Brandes–Köpf and the routers are decided by exact comparison at 2^k (k ∈ −3..6) on
     generated inputs plus the `Numbers` facts (the only float literals in phases 4/5 are 0, 2 and the B&K median constants;
     no size or spacing is read in phases 1–3). -/
 
@@ -95,6 +97,164 @@ theorem C17_layerYs_scale (c ls : Rat) (g : G) : layerYs (c * ls) (scaleG c g) =
   have h0 : (0 : Rat) = c * 0 := by grind
   conv => lhs; rw [h0]
   exact assignY_scale c ls 0 _
+
+/-! ### PackRight -/
+
+theorem packBack_scale (c ns : Rat) : ∀ (ws : List Rat) (x : Rat),
+    packBack (c * ns) (c * x) (ws.map (c * ·)) = (packBack ns x ws).map (c * ·)
+  | [], _ => rfl
+  | w :: ws, x => by
+    simp only [List.map_cons, packBack]
+    have : c * x - (c * w + c * ns) = c * (x - (w + ns)) := by grind
+    rw [this, packBack_scale c ns ws]
+
+theorem minRat_scale (a b c : Rat) (hc : 0 < c) : minRat (c * a) (c * b) = c * minRat a b := by
+  unfold minRat
+  by_cases h : a ≤ b
+  · have : c * a ≤ c * b := Rat.mul_le_mul_of_nonneg_left h (Rat.le_of_lt hc)
+    simp [h, this]
+  · have h' : b < a := Rat.not_le.1 h
+    have : ¬ c * a ≤ c * b := by
+      intro hle
+      have := (lt_scale b a c hc).2 h'
+      exact absurd hle (Rat.not_le.2 this)
+    simp [h, this]
+
+theorem foldl_minRat_scale (c : Rat) (hc : 0 < c) : ∀ (l : List Rat) (d : Rat),
+    (l.map (c * ·)).foldl minRat (c * d) = c * l.foldl minRat d
+  | [], _ => rfl
+  | x :: l, d => by
+    simp only [List.map_cons, List.foldl_cons, minRat_scale _ _ _ hc]
+    exact foldl_minRat_scale c hc l _
+
+theorem packRightRaw_scale (c ns : Rat) (g : G) (l l' : Layer) (hn : l'.nodes = l.nodes) :
+    packRightRaw (c * ns) (scaleG c g) l' = (packRightRaw ns g l).map (c * ·) := by
+  unfold packRightRaw
+  rw [widthsOf_scaleG c g l l' hn, ← List.map_reverse]
+  have h0 : (0 : Rat) = c * 0 := by grind
+  conv => lhs; rw [h0]
+  rw [packBack_scale, List.map_reverse]
+
+theorem packLeftBound_scale (c ns : Rat) (hc : 0 < c) (g : G) :
+    packLeftBound (c * ns) (scaleG c g) = c * packLeftBound ns g := by
+  unfold packLeftBound
+  have hl : (scaleG c g).layers.toList.flatMap (packRightRaw (c * ns) (scaleG c g)) =
+      (g.layers.toList.flatMap (packRightRaw ns g)).map (c * ·) := by
+    have hls : (scaleG c g).layers.toList = g.layers.toList.map fun l => { l with w := c * l.w, h := c * l.h } := by
+      simp [scaleG]
+    rw [hls, List.flatMap_map, List.map_flatMap]
+    have hcongr : ∀ (ls : List Layer), ls.flatMap (fun l => packRightRaw (c * ns) (scaleG c g) { l with w := c * l.w, h := c * l.h }) =
+        ls.flatMap fun l => (packRightRaw ns g l).map (c * ·) := by
+      intro ls
+      induction ls with
+      | nil => rfl
+      | cons l ls ih =>
+        simp only [List.flatMap_cons, ih]
+        rw [packRightRaw_scale c ns g l { l with w := c * l.w, h := c * l.h } rfl]
+    exact hcongr _
+  rw [hl]
+  have h0 : (0 : Rat) = c * 0 := by grind
+  conv => lhs; rw [h0]
+  exact foldl_minRat_scale c hc _ 0
+
+/-- C17 (PackRight): scaling sizes and spacing by c > 0 scales every x coordinate by c -/
+theorem C17_packright_scale (c ns : Rat) (hc : 0 < c) (g : G) (hwf : LayersWF g) (i : Nat) (hi : i < g.layers.toList.length) :
+    xsOf (execPackRight (c * ns) (scaleG c g)) ((scaleG c g).layers.toList[i]'(by simpa [scaleG] using hi)) =
+      (xsOf (execPackRight ns g) (g.layers.toList[i])).map (c * ·) := by
+  have hi' : i < (scaleG c g).layers.toList.length := by simpa [scaleG] using hi
+  have hl' : (scaleG c g).layers.toList[i] ∈ (scaleG c g).layers.toList := List.getElem_mem hi'
+  have hl : g.layers.toList[i] ∈ g.layers.toList := List.getElem_mem hi
+  rw [(C16_packright_coordinates (c * ns) (scaleG c g) (layersWF_scaleG c g hwf) _ hl').1,
+      (C16_packright_coordinates ns g hwf _ hl).1]
+  have hnodes : ((scaleG c g).layers.toList[i]).nodes = (g.layers.toList[i]).nodes := by
+    simp [scaleG]
+  rw [packRightRaw_scale c ns g (g.layers.toList[i]) _ hnodes, packLeftBound_scale c ns hc, List.map_map, List.map_map]
+  apply List.map_congr_left
+  intro x _
+  simp only [Function.comp]
+  grind
+
+/-! ### routers: every route point is a fixed linear expression in node coordinates, sizes, layer heights and LayerSpacing -/
+
+def scalePt (c : Rat) (p : Pt) : Pt := (c * p.1, c * p.2)
+
+theorem scaleG_node (c : Rat) (g : G) (n : Nat) :
+    ((scaleG c g).node n).x = c * (g.node n).x ∧ ((scaleG c g).node n).y = c * (g.node n).y ∧
+    ((scaleG c g).node n).w = c * (g.node n).w ∧ ((scaleG c g).node n).h = c * (g.node n).h ∧
+    ((scaleG c g).node n).virt = (g.node n).virt ∧ ((scaleG c g).node n).layer = (g.node n).layer := by
+  simp only [scaleG, G.node, Array.getD_eq_getD_getElem?, Array.getElem?_map]
+  cases g.nodes[n]? with
+  | none => simp [default, instInhabitedNode.default]
+  | some nd => simp
+
+theorem C17_startPoint_scale (c : Rat) (g : G) (n : Nat) : startPoint (scaleG c g) n = scalePt c (startPoint g n) := by
+  obtain ⟨hx, hy, hw, hh, _, _⟩ := scaleG_node c g n
+  simp only [startPoint, scalePt, hx, hy, hw, hh, Prod.mk.injEq]
+  constructor <;> grind
+
+theorem C17_endPoint_scale (c : Rat) (g : G) (n : Nat) : endPoint (scaleG c g) n = scalePt c (endPoint g n) := by
+  obtain ⟨hx, hy, hw, _, _, _⟩ := scaleG_node c g n
+  simp only [endPoint, scalePt, hx, hy, hw, Prod.mk.injEq]
+  constructor <;> grind
+
+/-- Straight routes (and the two-point case of the other routers) -/
+theorem C17_straight_scale (c : Rat) (g : G) (a b : Nat) : straight (scaleG c g) a b = (straight g a b).map (scalePt c) := by
+  simp [straight, C17_startPoint_scale, C17_endPoint_scale]
+
+theorem C17_layerH_scale (c : Rat) (g : G) (i : Int) : layerH (scaleG c g) i = c * layerH g i := by
+  simp only [layerH, scaleG, Array.getD_eq_getD_getElem?, Array.getElem?_map]
+  cases g.layers[i.toNat]? with
+  | none => simp [default, instInhabitedLayer.default]
+  | some l => simp
+
+/-- Polyline bends -/
+theorem C17_bend_scale (c : Rat) (g : G) (n : Nat) :
+    nonTerminalPoint (scaleG c g) n = (nonTerminalPoint g n).map (scalePt c) := by
+  obtain ⟨hx, hy, hw, _, hv, hl⟩ := scaleG_node c g n
+  unfold nonTerminalPoint
+  simp only [hv, hx, hy, hw, hl, C17_layerH_scale, bind, Except.bind, pure, Except.pure]
+  cases (g.node n).virt
+  · simp [Except.map, throw, throwThe, MonadExceptOf.throw]
+  · simp only [Bool.not_true, Bool.false_eq_true, if_false, Except.map, scalePt, Except.ok.injEq, Prod.mk.injEq]
+    constructor <;> grind
+
+/-- Orthogonal routes of ANY node chain -/
+theorem C17_orthoGroup_scale (c ls layerh : Rat) (g : G) (a b : Nat) :
+    orthoGroup (scaleG c g) (c * ls) (c * layerh) a b = (orthoGroup g ls layerh a b).map (scalePt c) := by
+  obtain ⟨_, _, _, _, hv, _⟩ := scaleG_node c g a
+  simp only [orthoGroup, C17_startPoint_scale, C17_endPoint_scale, hv, scalePt, List.map_cons, List.map_nil]
+  cases (g.node a).virt <;> simp <;> grind
+
+theorem C17_orthoPoints_scale (c ls layerh : Rat) (g : G) : ∀ (ns : List Nat),
+    orthoPoints (scaleG c g) (c * ls) (c * layerh) ns = (orthoPoints g ls layerh ns).map (scalePt c)
+  | [] => rfl
+  | [_] => rfl
+  | a :: b :: rest => by
+    simp only [orthoPoints, List.map_append, C17_orthoGroup_scale, C17_orthoPoints_scale c ls layerh g (b :: rest)]
+
+theorem rat_mul_cancel (a b c : Rat) (hc : 0 < c) (he : c * a = c * b) : a = b := by
+  have h1 : c * (a - b) = 0 := by grind
+  have hc0 : c ≠ 0 := fun e => by rw [e] at hc; exact absurd hc (by decide)
+  rcases Rat.mul_eq_zero.1 h1 with h | h
+  · exact absurd h hc0
+  · grind
+
+/-- the Ortho router's "vertically aligned" test does not depend on the unit -/
+theorem C17_aligned_scale (c : Rat) (hc : 0 < c) (g : G) (a b : Nat) :
+    (((scaleG c g).node a).x + ((scaleG c g).node a).w / 2 == ((scaleG c g).node b).x + ((scaleG c g).node b).w / 2) =
+    ((g.node a).x + (g.node a).w / 2 == (g.node b).x + (g.node b).w / 2) := by
+  obtain ⟨hxa, _, hwa, _, _, _⟩ := scaleG_node c g a
+  obtain ⟨hxb, _, hwb, _, _, _⟩ := scaleG_node c g b
+  rw [hxa, hwa, hxb, hwb]
+  have e1 : c * (g.node a).x + c * (g.node a).w / 2 = c * ((g.node a).x + (g.node a).w / 2) := by grind
+  have e2 : c * (g.node b).x + c * (g.node b).w / 2 = c * ((g.node b).x + (g.node b).w / 2) := by grind
+  rw [e1, e2]
+  by_cases h : (g.node a).x + (g.node a).w / 2 = (g.node b).x + (g.node b).w / 2
+  · simp [h]
+  · have : c * ((g.node a).x + (g.node a).w / 2) ≠ c * ((g.node b).x + (g.node b).w / 2) := by
+      intro he
+      exact h (rat_mul_cancel _ _ c hc he)
+    rw [beq_eq_false_iff_ne.2 h, beq_eq_false_iff_ne.2 this]
 
 theorem C17_placeFrom_scale : type_of% @placeFrom_scale := @placeFrom_scale
 theorem C17_layerW_scale : type_of% @layerW_scale := @layerW_scale
